@@ -154,7 +154,25 @@ func r1(c *core.Ctx) {
 				case other() == "FAIL":
 					c.Failf(rule, "send/"+b.Name, x.Pos(), "%s enqueues on ds.sendBuf from another goroutine than the parser: its commands interleave with the source stream in an order the source never produced", b.Name)
 				default:
-					c.Undecidedf(rule, "send/"+b.Name, x.Pos(), "enqueue outside parseSourceCommand: cannot tell which goroutine executes it")
+					// a helper: which goroutines execute it?
+					onlyParser, other := true, false
+					for _, r := range goroutinesOf(c, b, x, 4) {
+						switch r.Kind {
+						case "parser":
+						case "golit", "gofn", "sync":
+							other, onlyParser = true, false
+						default:
+							onlyParser = false
+						}
+					}
+					switch {
+					case onlyParser:
+						c.Okf(rule, "send/"+b.Name, x.Pos(), "enqueue in a helper that only the parser goroutine calls")
+					case other:
+						c.Failf(rule, "send/"+b.Name, x.Pos(), "%s enqueues on ds.sendBuf and is reached from another goroutine than the parser: its commands interleave with the source stream in an order the source never produced", b.Name)
+					default:
+						c.Undecidedf(rule, "send/"+b.Name, x.Pos(), "enqueue outside parseSourceCommand: cannot tell which goroutine executes it")
+					}
 				}
 			case *ast.UnaryExpr:
 				if x.Op != token.ARROW || !IsSendBuf(info, x.X) {
@@ -236,7 +254,7 @@ func r2(c *core.Ctx, p *Parser) {
 	for _, e := range p.Sends {
 		idx[e.Name]++
 		w := p.G.Path(cfgq.Query{From: e.Pt, After: true, Avoid: p.IsDecode, Target: p.IsSend})
-		c.Check(rule, fmt.Sprintf("at-most-once/%s#%d", e.Name, idx[e.Name]), e.Stmt.Pos(), w == nil,
+		c.Check(rule, fmt.Sprintf("at-most-once/%s#%d", e.Name, idx[e.Name]), e.Pos(), w == nil,
 			"after an enqueue no second enqueue may be reached before the next command is decoded: the target would apply the command (or an extra SELECT) twice", w...)
 	}
 	loop := 0
